@@ -332,6 +332,9 @@ fn small(case: &SmallCase, obs: &mut Obs) -> PropResult {
 	if let Some(table) = crate::classfile::gen::inflate_table(&mut model, case.big) {
 		obs.label(format!("table_with_300_entries:{table}"));
 	}
+	if let Some(n) = crate::classfile::gen::add_long_string(&mut model, case.big) {
+		obs.label(if n > 32767 { "utf8_constant>32767_bytes" } else { "utf8_constant=32767_bytes" });
+	}
 	let enc = match encode(&model, &case.ch) {
 		Ok(e) => e,
 		Err(EncodeError::BranchTooFar { .. }) | Err(EncodeError::CodeTooLarge(_)) | Err(EncodeError::PoolTooLarge) => {
